@@ -1,6 +1,7 @@
 import Fdo.Kex.Crypter
 import Fdo.Kex.CrypterProofs
 import Fdo.Drv.Tunnel
+import Fdo.Kex.WireProofs
 import Fdo.Facts
 /-
 C05 — TO2 messages after ProveDevice are confidential and tamper-evident.
@@ -195,6 +196,27 @@ theorem fresh_iv (P : Prims) (hP : PrimsCorrect P) (s : Suite) (sek svk : Bytes)
   refine ⟨_, _, a1, b1, ?_, by simp; omega, by simp at b3 ⊢; omega⟩
   have : 2 * ivLen s = ivLen s + ivLen s := by omega
   rw [this, List.take_add]
+
+/-- **On the wire**: the bytes the sender transmits (`SessionCrypter.Encrypt`, then `cbor.Marshal` of the
+tagged COSE object) are read by the receiver (`SessionCrypter.Decrypt`: one tag from the stream, content
+unmarshalled by tag number, MAC compared, ciphertext opened) as exactly the protected message. Composition
+of the COSE round trip above with C11's typed CBOR round trip; `conf`/`wconf` say that IV and ciphertext
+are within the codec's limits (byte strings below 100 000 bytes). -/
+theorem wire_round_trip (P : Prims) (hP : PrimsCorrect P) (s : Suite) (sek svk rnd p : Bytes)
+    (t : Nat) (inner : Val) (rest : Bytes) (sch : Schema) (raw : Bytes)
+    (hp : ∃ x, unmarshalRaw p = some x)
+    (henc : encryptVal P s sek svk Fdo.Gen.Schemas.s_Encrypt0 rnd p = some (t, inner, rest))
+    (hsch : tunnelSchema t = some sch) (hraw : marshalS sch inner = some raw)
+    (hconf : conf 10000 maxDepth sch inner = true) (hw : wconf 10000 maxDepth sch inner = true)
+    (hlen : raw.length + 16 < 18446744073709551616) :
+    decryptWire P s sek svk (encHead 6 t ++ raw) = .ok p :=
+  decryptWire_encryptVal P hP s sek svk rnd p t inner rest sch raw hp henc hsch hraw hconf hw hlen
+
+/-! Non-vacuity of `wire_round_trip`: its hypotheses (`Fdo.Kex.wireHypothesesHold`: the sender's output
+exists, marshals, and satisfies `conf` and `wconf`) are evaluated by the model driver for every message of
+the correspondence run, with the Lean AES/HMAC as primitives, and reported as `hyp-ok` next to `self-ok`
+(the model's receiver opening the model's sender's bytes); a kernel `decide` is not available here because
+the header maps are written through `List.mergeSort`, which is defined by well-founded recursion. -/
 
 /-- The Lean AES-GCM and AES-CTR used by the model driver are functionally correct in the sense
 `decrypt_encrypt` needs (proved for the concrete implementations; CBC's block-cipher inverse is not
